@@ -24,6 +24,8 @@ import (
 	"hash/fnv"
 	"net/netip"
 	"os"
+	"runtime/debug"
+	"runtime/pprof"
 	"sort"
 	"strings"
 	"sync"
@@ -163,10 +165,10 @@ type cEnums struct {
 type checker struct {
 	r     *vlib.Run
 	enums cEnums
-	pool  chan *vkern.K
-	all   []*vkern.K
+	pool  chan *kproc
+	all   []*kproc
 
-	evals, programs, dupProgs, byRule, byFb, mustDec, markDec, dnsCP, dnsMust, lanDec, wanDec, tcpDec, udpDec, v4Dec, v6Dec, domKnown, skippedUnspec, kernNeg, refCmp *atomic.Int64
+	evals, kcalls, programs, dupProgs, byRule, byFb, mustDec, markDec, dnsCP, dnsMust, lanDec, wanDec, tcpDec, udpDec, v4Dec, v6Dec, domKnown, skippedUnspec, kernNeg, refCmp *atomic.Int64
 	mism                                                                                                                                                          atomic.Int64
 
 	ringMu sync.Mutex
@@ -321,56 +323,6 @@ func (c *checker) compile(base *vroute.Program, va variant) (*compiled, error) {
 
 func le32(v uint32) []byte { return binary.LittleEndian.AppendUint32(nil, v) }
 
-// load installs the program into a freshly reset kdrv: routing_map, routing_meta_map, one inner trie per LPM set
-// at its ring slot. Returns a description of a rejected write ("" = all accepted).
-func (c *checker) load(k *vkern.K, cp *compiled) string {
-	must := func(err error) {
-		if err != nil {
-			broken("engine K: %v\n%s", err, k.Stderr())
-		}
-	}
-	must(k.Reset())
-	keys := make([][]byte, len(cp.kern))
-	for i := range keys {
-		keys[i] = le32(uint32(i))
-	}
-	rc, err := k.MapUpdate("routing_map", vkern.BPF_ANY, keys, cp.kern)
-	if err != nil {
-		return "routing_map does not accept the builder's rule bytes: " + err.Error()
-	}
-	for i, x := range rc {
-		if x != 0 {
-			return fmt.Sprintf("routing_map rejects rule %d: rc=%d", i, x)
-		}
-	}
-	must(k.MapUpdate1("routing_meta_map", le32(0), le32(uint32(len(cp.kern))), vkern.BPF_ANY))
-	for i, set := range cp.v.LpmSets() {
-		id, err := k.MapCreateInner("lpm_array_map")
-		must(err)
-		if len(set) > 0 {
-			ks := make([][]byte, len(set))
-			vs := make([][]byte, len(set))
-			for j, p := range set {
-				ks[j] = control.VerifLpmKeyBytes(p)
-				vs[j] = le32(1)
-			}
-			rc, err := k.MapUpdate(vkern.InnerName(id), vkern.BPF_ANY, ks, vs)
-			if err != nil {
-				return "the LPM trie does not accept the keys of cidrToBpfLpmKey: " + err.Error()
-			}
-			for j, x := range rc {
-				if x != 0 {
-					return fmt.Sprintf("the LPM trie rejects cidrToBpfLpmKey(%s): rc=%d", set[j], x)
-				}
-			}
-		}
-		if err := k.MapSetInner("lpm_array_map", control.VerifC02LpmSlot(cp.alloc, i), id); err != nil {
-			return fmt.Sprintf("lpm_array_map rejects slot %d: %v", control.VerifC02LpmSlot(cp.alloc, i), err)
-		}
-	}
-	return ""
-}
-
 // routeArg builds the arguments of route() the way do_tproxy_lan_ingress / do_tproxy_wan_egress_{tcp,udp} do:
 // flag[0] L4ProtoType_*, flag[1] IpVersionType_* (from the ethertype: an IPv4 frame carries v4-mapped addresses),
 // flag[2..5] the 16 bytes of the process name (WAN only), flag[6] dscp, flag[7] is_wan; ports in network order in the
@@ -404,9 +356,12 @@ func (c *checker) routeArg(p *vroute.Packet, wan bool) vkern.RouteArg {
 }
 
 // packets: the boundary product of the program's own constants (+ dport 53), every packet as TCP and as UDP.
-func packetsOf(p *vroute.Program, opts vroute.PacketOpts) []vroute.Packet {
+func packetsOf(p *vroute.Program, opts vroute.PacketOpts, bothL4 bool) []vroute.Packet {
 	opts.ExtraDports = []uint16{53}
 	base := vroute.PacketsFor(p, opts)
+	if !bothL4 { // tcp, and udp only where the program mentions l4proto (the generator's own rule)
+		return base
+	}
 	hasUDP := false
 	for i := range base {
 		if base[i].L4 == "udp" {
@@ -442,125 +397,245 @@ type goRes struct {
 	err error
 }
 
-// run decides every packet of one loaded program on both sides. Returns false when the kdrv died (caller replaces it).
-func (c *checker) run(k *vkern.K, cp *compiled, pkts []vroute.Packet, loneKey string, sample bool) {
-	// group by domain: domain_routing_map is keyed by the destination address alone
-	order := []string{}
-	groups := map[string][]int{}
+type kcase struct {
+	pkt int
+	wan bool
+	arg int // index into the group's de-duplicated argument vectors
+}
+
+type group struct {
+	domain  string
+	idx     []int
+	clear   bool
+	ents    []control.VerifC02DomainEntry
+	cases   []kcase
+	args    []vkern.RouteArg
+	gor     map[int]goRes
+	respUpd int // index of the domain_routing_map update response (-1: none)
+	respRt  int // index of the route response (-1: none)
+}
+
+// run loads one compiled program into a reset kdrv and decides every packet on both sides. All kdrv requests of the
+// program travel in one pipelined session: reset, routing_map, routing_meta_map, one inner trie per LPM set stored at
+// its ring slot, and per domain value (domain_routing_map is keyed by the destination address alone) the table the
+// control plane writes followed by the route() batch.
+func (c *checker) run(k *kproc, cp *compiled, pkts []vroute.Packet, loneKey string, sample bool) {
+	loadViol := func(why string) {
+		c.violate("leg=load prog="+cp.prog.OneLine()+" variant="+cp.va.String()+" "+why, map[string]any{"config": cp.text, "variant": cp.va})
+	}
+	var s session
+	s.reset()
+	// --- the rule array and its active length
+	rm := k.maps["routing_map"]
+	keys := make([][]byte, len(cp.kern))
+	for i := range keys {
+		keys[i] = le32(uint32(i))
+		if len(cp.kern[i]) != int(rm.valueSize) {
+			loadViol(fmt.Sprintf("a rule as written by the builder has %d bytes, struct match_set has %d", len(cp.kern[i]), rm.valueSize))
+			return
+		}
+	}
+	if len(cp.kern) > int(rm.maxEntries) {
+		loadViol(fmt.Sprintf("%d rules do not fit routing_map (%d)", len(cp.kern), rm.maxEntries))
+		return
+	}
+	s.update("routing_map", keys, cp.kern)
+	s.update("routing_meta_map", [][]byte{le32(0)}, [][]byte{le32(uint32(len(cp.kern)))})
+	// --- the tries
+	la := k.maps["lpm_array_map"]
+	sets := cp.v.LpmSets()
+	type lpmResp struct{ create, upd, set int }
+	lr := make([]lpmResp, len(sets))
+	for i, set := range sets {
+		id := k.innerBase + uint32(i)
+		lr[i].create = len(s.kinds)
+		s.create("lpm_array_map")
+		lr[i].upd = -1
+		if len(set) > 0 {
+			ks := make([][]byte, len(set))
+			vs := make([][]byte, len(set))
+			for j, p := range set {
+				ks[j] = control.VerifLpmKeyBytes(p)
+				vs[j] = le32(1)
+				if len(ks[j]) != int(la.innerKey) {
+					loadViol(fmt.Sprintf("cidrToBpfLpmKey gives %d bytes, struct lpm_key has %d", len(ks[j]), la.innerKey))
+					return
+				}
+			}
+			lr[i].upd = len(s.kinds)
+			s.update(vkern.InnerName(id), ks, vs)
+		}
+		lr[i].set = len(s.kinds)
+		s.update("lpm_array_map", [][]byte{le32(control.VerifC02LpmSlot(cp.alloc, i))}, [][]byte{le32(id)})
+	}
+	// --- packets grouped by domain
+	dm := k.maps["domain_routing_map"]
+	var groups []*group
+	byDom := map[string]*group{}
 	for i := range pkts {
 		d := pkts[i].Domain
-		if _, ok := groups[d]; !ok {
-			order = append(order, d)
+		g := byDom[d]
+		if g == nil {
+			g = &group{domain: d, respUpd: -1, respRt: -1}
+			byDom[d] = g
+			groups = append(groups, g)
 		}
-		groups[d] = append(groups[d], i)
+		g.idx = append(g.idx, i)
 	}
-	local := map[int64]int64{}
-	var nRule, nFb, nMust, nMark, nDnsCP, nDnsMust, nLan, nWan, nTCP, nUDP, n4, n6, nDom, nSkip, nNeg, nEval, nRef int64
-	posLocal := map[string]int64{}
-	nviol := 0
+	var nSkip int64
 	dirty := false
-	for _, d := range order {
-		idx := groups[d]
-		if dirty {
-			if err := k.MapClear("domain_routing_map"); err != nil {
-				broken("engine K: %v", err)
-			}
-			dirty = false
-		}
-		if d != "" {
+	for _, g := range groups {
+		if g.domain != "" {
 			seen := map[netip.Addr]bool{}
 			var addrs []netip.Addr
-			for _, i := range idx {
+			for _, i := range g.idx {
 				a := pkts[i].Dst.Addr().Unmap()
 				if !seen[a] {
 					seen[a] = true
 					addrs = append(addrs, a)
 				}
 			}
-			ents, err := control.VerifC02DomainTable(addrs, cp.v.DomainBitmap(d))
+			ents, err := control.VerifC02DomainTable(addrs, cp.v.DomainBitmap(g.domain))
 			if err != nil {
-				c.violate("leg=domain-table prog="+cp.prog.OneLine()+" domain="+d+" err="+err.Error(), map[string]any{"config": cp.text})
-				continue
+				c.violate("leg=domain-table prog="+cp.prog.OneLine()+" domain="+g.domain+" err="+err.Error(), map[string]any{"config": cp.text})
+				return
 			}
-			if len(ents) > 0 {
-				ks, vs := make([][]byte, len(ents)), make([][]byte, len(ents))
-				for i, e := range ents {
-					ks[i], vs[i] = e.Key, e.Value
+			g.ents = ents
+		}
+		if dirty {
+			s.clear("domain_routing_map")
+			dirty = false
+		}
+		if len(g.ents) > 0 {
+			ks, vs := make([][]byte, len(g.ents)), make([][]byte, len(g.ents))
+			for i, e := range g.ents {
+				ks[i], vs[i] = e.Key, e.Value
+				if len(e.Key) != int(dm.keySize) || len(e.Value) != int(dm.valueSize) {
+					loadViol(fmt.Sprintf("the control plane's domain_routing_map entry has %d/%d bytes, the kernel map %d/%d", len(e.Key), len(e.Value), dm.keySize, dm.valueSize))
+					return
 				}
-				rc, err := k.MapUpdate("domain_routing_map", vkern.BPF_ANY, ks, vs)
-				if err != nil {
-					c.violate("leg=domain-table prog="+cp.prog.OneLine()+" domain="+d+" kernel map does not accept the control plane's key/value: "+err.Error(), map[string]any{"config": cp.text})
-					continue
-				}
-				for _, x := range rc {
-					if x != 0 {
-						c.violate(fmt.Sprintf("leg=domain-table prog=%s domain=%s domain_routing_map update rc=%d", cp.prog.OneLine(), d, x), map[string]any{"config": cp.text})
-					}
-				}
-				dirty = true
 			}
+			g.respUpd = len(s.kinds)
+			s.update("domain_routing_map", ks, vs)
+			dirty = true
 		}
-		type kc struct {
-			pkt int
-			wan bool
+		g.gor = make(map[int]goRes, len(g.idx))
+		argIdx := map[vkern.RouteArg]int{}
+		addCase := func(i int, wan bool) {
+			a := c.routeArg(&pkts[i], wan)
+			n, ok := argIdx[a]
+			if !ok { // an IPv4 packet reaches route() identically whether Go saw it as 4-byte or as v4-mapped address
+				n = len(g.args)
+				argIdx[a] = n
+				g.args = append(g.args, a)
+			}
+			g.cases = append(g.cases, kcase{i, wan, n})
 		}
-		var cases []kc
-		var args []vkern.RouteArg
-		gor := make(map[int]goRes, len(idx))
-		for _, i := range idx {
+		for _, i := range g.idx {
 			p := &pkts[i]
-			if d != "" && p.Dst.Addr().Unmap().IsUnspecified() {
+			if g.domain != "" && p.Dst.Addr().Unmap().IsUnspecified() {
 				// the control plane never installs a bitmap for the unspecified address (extractIPsFromDnsCache):
 				// "domain known for this destination" cannot be realised on the kernel side
 				nSkip++
 				continue
 			}
-			var g goRes
+			var gr goRes
 			if pn, msg := vlib.Try(func() {
 				ob, mark, must, err := cp.v.Route(p.Src, p.Dst, p.Domain, l4Of(p.L4), pname16(p.Pname), p.Mac, p.Dscp)
-				g = goRes{triple{ob, mark, must}, err}
+				gr = goRes{triple{ob, mark, must}, err}
 			}); pn {
-				g.err = fmt.Errorf("panic at %s", vlib.PanicSite(msg))
+				gr.err = fmt.Errorf("panic at %s", vlib.PanicSite(msg))
 			}
-			gor[i] = g
+			g.gor[i] = gr
 			if p.Pname == "" { // LAN: MAC known, no process name, is_wan = 0
-				cases = append(cases, kc{i, false})
-				args = append(args, c.routeArg(p, false))
+				addCase(i, false)
 			}
 			// WAN: process name (possibly unknown), is_wan = 1, MAC as on the frame (zero = L3 device)
-			cases = append(cases, kc{i, true})
-			args = append(args, c.routeArg(p, true))
+			addCase(i, true)
 		}
-		if len(args) == 0 {
+		if len(g.args) > 0 {
+			g.respRt = len(s.kinds)
+			s.route(g.args)
+		}
+	}
+	rs, err := k.exec(&s)
+	if err != nil {
+		broken("engine K: %v\nprogram: %s", err, cp.prog.OneLine())
+	}
+	// --- did the kernel maps accept what the control plane writes?
+	chk := func(i int, what string) bool {
+		if i < 0 {
+			return true
+		}
+		if rs[i].status != 0 {
+			loadViol(fmt.Sprintf("%s: kdrv refuses the request: %s (%d)", what, rs[i].msg, rs[i].status))
+			return false
+		}
+		for j, x := range rs[i].rc {
+			if x != 0 {
+				loadViol(fmt.Sprintf("%s: entry %d rejected, rc=%d", what, j, x))
+				return false
+			}
+		}
+		return true
+	}
+	if rs[0].status != 0 {
+		broken("engine K: reset failed: %s", rs[0].msg)
+	}
+	if !chk(1, "routing_map") || !chk(2, "routing_meta_map") {
+		return
+	}
+	for i := range sets {
+		if rs[lr[i].create].status != 0 || rs[lr[i].create].id != k.innerBase+uint32(i) {
+			broken("engine K: inner map ids are not the predicted sequence (%d, want %d; %s)", rs[lr[i].create].id, k.innerBase+uint32(i), rs[lr[i].create].msg)
+		}
+		if !chk(lr[i].upd, fmt.Sprintf("LPM trie of set %d (keys of cidrToBpfLpmKey for %v)", i, sets[i])) || !chk(lr[i].set, fmt.Sprintf("lpm_array_map slot %d", control.VerifC02LpmSlot(cp.alloc, i))) {
+			return
+		}
+	}
+	local := map[int64]int64{}
+	var nRule, nFb, nMust, nMark, nDnsCP, nDnsMust, nLan, nWan, nTCP, nUDP, n4, n6, nDom, nNeg, nEval, nCalls int64
+	posRule := make([]int64, len(cp.prog.Rules))
+	type refDec struct {
+		t   triple
+		hit vroute.Hit
+	}
+	refCache := make(map[int]refDec, len(pkts))
+	nviol := 0
+	for _, g := range groups {
+		if !chk(g.respUpd, "domain_routing_map (domain "+g.domain+")") {
+			return
+		}
+		if g.respRt < 0 {
 			continue
 		}
-		res, err := k.Route(args)
-		if err != nil {
-			broken("engine K: route() batch failed: %v\nprogram: %s\n%s", err, cp.prog.OneLine(), k.Stderr())
+		if rs[g.respRt].status != 0 {
+			broken("engine K: route batch refused: %s", rs[g.respRt].msg)
 		}
-		for n, kcse := range cases {
-			p := &pkts[kcse.pkt]
-			g := gor[kcse.pkt]
-			got := res[n]
+		res := rs[g.respRt].res
+		nCalls += int64(len(res))
+		for _, kc := range g.cases {
+			p := &pkts[kc.pkt]
+			gr := g.gor[kc.pkt]
+			got := res[kc.arg]
 			nEval++
 			local[got]++
-			want, hit := cp.ref.Decide(p)
-			refT := triple{cp.name2id[want.Outbound], want.Mark, want.Must}
+			rd, ok := refCache[kc.pkt]
+			if !ok {
+				want, hit := cp.ref.Decide(p)
+				rd = refDec{triple{cp.name2id[want.Outbound], want.Mark, want.Must}, hit}
+				refCache[kc.pkt] = rd
+			}
+			refT, hit := rd.t, rd.hit
 			if hit.Rule >= 0 || hit.MustRules > 0 {
 				nRule++
 			} else {
 				nFb++
 			}
 			if hit.Rule >= 0 {
-				for _, cd := range cp.prog.Rules[hit.Rule].Conds {
-					k := normFunc(cd.Func)
-					if cd.Not {
-						k = "!" + k
-					}
-					posLocal[k]++
-				}
+				posRule[hit.Rule]++
 			}
-			if kcse.wan {
+			if kc.wan {
 				nWan++
 			} else {
 				nLan++
@@ -575,13 +650,13 @@ func (c *checker) run(k *vkern.K, cp *compiled, pkts []vroute.Packet, loneKey st
 			} else {
 				n6++
 			}
-			if d != "" {
+			if g.domain != "" {
 				nDom++
 			}
-			exp := g.t
+			exp := gr.t
 			dns := p.Dst.Port() == 53
 			if dns && !exp.must {
-				exp = triple{uint8(consts.OutboundControlPlaneRouting), g.t.mark, false}
+				exp = triple{uint8(consts.OutboundControlPlaneRouting), gr.t.mark, false}
 				nDnsCP++
 			} else if dns {
 				nDnsMust++
@@ -595,21 +670,20 @@ func (c *checker) run(k *vkern.K, cp *compiled, pkts []vroute.Packet, loneKey st
 			if got < 0 {
 				nNeg++
 			}
-			bad := g.err != nil || got != exp.pack()
-			refBad := g.err == nil && g.t != refT
-			nRef++
+			bad := gr.err != nil || got != exp.pack()
+			refBad := gr.err == nil && gr.t != refT
 			if (bad || refBad) && nviol < 2 {
 				nviol++
-				us := g.t.String()
-				if g.err != nil {
-					us = "error: " + g.err.Error()
+				us := gr.t.String()
+				if gr.err != nil {
+					us = "error: " + gr.err.Error()
 				}
 				leg := "kernel-vs-userspace"
 				if !bad {
 					leg = "userspace-vs-reference(common-mode)"
 				}
 				fl := "lan"
-				if kcse.wan {
+				if kc.wan {
 					fl = "wan"
 				}
 				hexRules := make([]string, len(cp.kern))
@@ -617,11 +691,12 @@ func (c *checker) run(k *vkern.K, cp *compiled, pkts []vroute.Packet, loneKey st
 					hexRules[i] = fmt.Sprintf("%x", b)
 				}
 				c.violate(fmt.Sprintf("leg=%s prog=%s variant=%s pkt=%s flavour=%s kernel=[%s] userspace=[%s] expected=[%s] reference=[%s]", leg, cp.prog.OneLine(), cp.va, p.Key(), fl, kernString(got), us, exp, refT),
-					caseDetail{Program: cp.prog, Config: cp.text, Variant: cp.va, Packet: toJSON(p), Wan: kcse.wan, Kernel: kernString(got), Userspace: us, Expected: exp.String(), Reference: refT.String(), Rules: hexRules, Alloc: cp.alloc})
+					caseDetail{Program: cp.prog, Config: cp.text, Variant: cp.va, Packet: toJSON(p), Wan: kc.wan, Kernel: kernString(got), Userspace: us, Expected: exp.String(), Reference: refT.String(), Rules: hexRules, Alloc: cp.alloc})
 			}
 		}
 	}
 	c.evals.Add(nEval)
+	c.kcalls.Add(nCalls)
 	c.byRule.Add(nRule)
 	c.byFb.Add(nFb)
 	c.mustDec.Add(nMust)
@@ -637,13 +712,22 @@ func (c *checker) run(k *vkern.K, cp *compiled, pkts []vroute.Packet, loneKey st
 	c.domKnown.Add(nDom)
 	c.skippedUnspec.Add(nSkip)
 	c.kernNeg.Add(nNeg)
-	c.refCmp.Add(nRef)
+	c.refCmp.Add(nEval)
 	c.mu.Lock()
 	for v, n := range local {
 		c.outcomes[kernString(v)] += n
 	}
-	for k, n := range posLocal {
-		c.positives[k] += n
+	for j, n := range posRule {
+		if n == 0 {
+			continue
+		}
+		for _, cd := range cp.prog.Rules[j].Conds {
+			k := normFunc(cd.Func)
+			if cd.Not {
+				k = "!" + k
+			}
+			c.positives[k] += n
+		}
 	}
 	if loneKey != "" {
 		t := c.lone[loneKey]
@@ -660,7 +744,7 @@ func (c *checker) run(k *vkern.K, cp *compiled, pkts []vroute.Packet, loneKey st
 	}
 }
 
-func (c *checker) one(base *vroute.Program, va variant, opts vroute.PacketOpts, dedupe bool, sample bool) {
+func (c *checker) one(base *vroute.Program, va variant, opts vroute.PacketOpts, bothL4 bool, dedupe bool, sample bool) {
 	var cp *compiled
 	var err error
 	if p, msg := vlib.Try(func() { cp, err = c.compile(base, va) }); p {
@@ -696,7 +780,7 @@ func (c *checker) one(base *vroute.Program, va variant, opts vroute.PacketOpts, 
 		c.ringMax = cp.alloc
 	}
 	c.mu.Unlock()
-	pkts := packetsOf(cp.prog, opts)
+	pkts := packetsOf(cp.prog, opts, bothL4)
 	loneKey := ""
 	if len(cp.prog.Rules) == 1 && len(cp.prog.Rules[0].Conds) == 1 {
 		cd := cp.prog.Rules[0].Conds[0]
@@ -707,10 +791,6 @@ func (c *checker) one(base *vroute.Program, va variant, opts vroute.PacketOpts, 
 	}
 	k := <-c.pool
 	defer func() { c.pool <- k }()
-	if why := c.load(k, cp); why != "" {
-		c.violate("leg=load prog="+cp.prog.OneLine()+" variant="+va.String()+" "+why, map[string]any{"config": cp.text, "variant": va})
-		return
-	}
 	c.run(k, cp, pkts, loneKey, sample)
 }
 
@@ -726,7 +806,7 @@ func (s *space) At(i int) *vroute.Program { return s.at(i) }
 
 func fromV(v *vroute.Space) *space { return &space{Name: v.Name, Descr: v.Descr, n: v.Len(), at: v.At} }
 
-func (c *checker) runSpace(s *space, opts vroute.PacketOpts, dedupe bool, allVariants bool) {
+func (c *checker) runSpace(s *space, opts vroute.PacketOpts, bothL4 bool, dedupe bool, allVariants bool) {
 	n := s.Len()
 	e0, p0 := c.evals.Load(), c.programs.Load()
 	total := n
@@ -743,7 +823,7 @@ func (c *checker) runSpace(s *space, opts vroute.PacketOpts, dedupe bool, allVar
 		if c.mism.Load() > maxRecorded {
 			return
 		}
-		if c.r.OverBudget(15*time.Minute, 100*time.Minute) { // runaway guard only (a heavily loaded host), never an oracle
+		if c.r.OverBudget(40*time.Minute, 240*time.Minute) { // runaway guard only (a heavily loaded host), never an oracle
 			c.r.CapHit("internal time budget reached inside space " + s.Name)
 			return
 		}
@@ -753,7 +833,7 @@ func (c *checker) runSpace(s *space, opts vroute.PacketOpts, dedupe bool, allVar
 		} else {
 			va = variantAt(int(mix64(seed+uint64(j)) % nVariants))
 		}
-		c.one(s.At(i), va, opts, dedupe, j%stride == stride/2)
+		c.one(s.At(i), va, opts, bothL4, dedupe, j%stride == stride/2)
 		if d := done.Add(1); total >= 200000 && d%int64(total/5) == 0 && d < int64(total) {
 			fmt.Printf("C02: space %-10s %d%% t=%.0fs\n", s.Name, d*100/int64(total), c.r.Elapsed().Seconds())
 		}
@@ -816,9 +896,9 @@ func variantBase() *space {
 // ---------------------------------------------------------------------------------------------------
 
 func (c *checker) startKdrvs(n int) {
-	c.pool = make(chan *vkern.K, n)
+	c.pool = make(chan *kproc, n)
 	for i := 0; i < n; i++ {
-		k, err := vkern.Start()
+		k, err := startKproc()
 		if err != nil {
 			broken("%v", err)
 		}
@@ -829,8 +909,8 @@ func (c *checker) startKdrvs(n int) {
 
 func (c *checker) stopKdrvs() {
 	for _, k := range c.all {
-		if err := k.Close(); err != nil {
-			broken("kdrv exited abnormally: %v\n%s", err, k.Stderr())
+		if err := k.close(); err != nil {
+			broken("kdrv exited abnormally: %v\n%s", err, k.stderr.String())
 		}
 	}
 }
@@ -859,10 +939,6 @@ func (c *checker) replay() {
 		broken("%v", err)
 	}
 	k := <-c.pool
-	if why := c.load(k, cp); why != "" {
-		fmt.Println("REPLAY load:", why)
-		os.Exit(1)
-	}
 	before := c.mism.Load()
 	pk := []vroute.Packet{p}
 	c.run(k, cp, pk, "", false)
@@ -876,6 +952,7 @@ func (c *checker) replay() {
 
 func main() {
 	r := vlib.Start("C02", "exploration")
+	debug.SetGCPercent(600) // the builder allocates 1024-slot matcher tables per program; heap stays small
 	c := &checker{r: r, outcomes: map[string]int64{}, seen: map[uint64]struct{}{}, lone: map[string][2]int64{}, positives: map[string]int64{}}
 	c.evals, c.programs, c.dupProgs = r.Counter("evaluations"), r.Counter("programs"), r.Counter("programs_skipped_identical_after_mark_rewrite")
 	c.byRule, c.byFb = r.Counter("decided_by_rule_or_must_rules"), r.Counter("decided_by_plain_fallback")
@@ -885,6 +962,7 @@ func main() {
 	c.v4Dec, c.v6Dec, c.domKnown = r.Counter("decisions_ipv4"), r.Counter("decisions_ipv6"), r.Counter("decisions_with_domain_bitmap_installed")
 	c.skippedUnspec = r.Counter("packets_skipped_domain_for_unspecified_destination")
 	c.kernNeg, c.refCmp = r.Counter("kernel_negative_results"), r.Counter("three_way_comparisons")
+	c.kcalls = r.Counter("kernel_route_calls")
 
 	if err := vroute.SelfTest(); err != nil {
 		broken("%v", err)
@@ -930,21 +1008,31 @@ func main() {
 	if os.Getenv("C02_BENCH") != "" {
 		c.bench()
 	}
+	if pf := os.Getenv("C02_CPUPROFILE"); pf != "" { // development aid: profile a slice of tier 1
+		f, _ := os.Create(pf)
+		pprof.StartCPUProfile(f)
+		t1 := fromV(vroute.Tier1())
+		t1.n = 12000
+		c.runSpace(t1, vroute.PacketOpts{MappedForms: true}, true, true, false)
+		pprof.StopCPUProfile()
+		f.Close()
+		os.Exit(0)
+	}
 
 	full := vroute.PacketOpts{MappedForms: true}
 	vb := variantBase()
-	c.runSpace(vb, full, true, true)
+	c.runSpace(vb, vroute.PacketOpts{Compact: true, MappedForms: true}, true, true, true)
 	t1 := fromV(vroute.Tier1())
-	c.runSpace(t1, full, true, false)
-	c.runSpace(fromV(vroute.Tier2(1, true, vroute.Tier2Outbounds)), full, false, r.Thorough())
-	rule := "programs: (a) " + vb.Descr + "; (b) tier 1 = " + t1.Descr + "; (c) tier 2 = 4 rotations of three independent atoms, rule = any non-empty conjunction of {A,!A,B,!B,C,!C} (26) x single/multi-valued realisation (per rule) x 5 outbounds (incl. must_rules): all programs of exactly 1 and exactly 2 rules"
+	c.runSpace(t1, full, true, true, false)
+	c.runSpace(fromV(vroute.Tier2(1, true, vroute.Tier2Outbounds)), full, true, false, r.Thorough())
+	rule := "programs: (a) " + vb.Descr + " (compact packet product); (b) tier 1 = " + t1.Descr + "; (c) tier 2 = 4 rotations of three independent atoms, rule = any non-empty conjunction of {A,!A,B,!B,C,!C} (26) x single/multi-valued realisation x outbound: all programs of exactly 1 rule (realisation per rule, 5 outbounds incl. must_rules)"
 	if !r.Thorough() {
-		c.runSpace(fromV(vroute.Tier2(2, true, vroute.Tier2Outbounds)), vroute.PacketOpts{Compact: true}, false, false)
-		rule += " (2-rule programs with the compact packet product: one inside + one outside neighbour per constant)"
+		c.runSpace(fromV(vroute.Tier2(2, false, vroute.Tier2OutboundsSmall)), vroute.PacketOpts{Compact: true}, true, false, false)
+		rule += " and, quick tier, all programs of exactly 2 rules over the 3 outbounds {g1, must_g2, must_rules} with the realisation chosen per program (compact packet product: one inside + one outside neighbour per constant)"
 	} else {
-		c.runSpace(fromV(vroute.Tier2(2, true, vroute.Tier2Outbounds)), vroute.PacketOpts{}, false, false)
-		c.runSpace(fromV(vroute.Tier2(3, false, vroute.Tier2OutboundsSmall)), vroute.PacketOpts{Compact: true}, false, false)
-		rule += ", and all programs of exactly 3 rules over 3 outbounds {g1, must_g2, must_rules} with the realisation chosen per program (compact packet product); the 1-rule tier-2 programs under all 60 variants"
+		c.runSpace(fromV(vroute.Tier2(2, true, vroute.Tier2Outbounds)), vroute.PacketOpts{}, true, false, false)
+		c.runSpace(fromV(vroute.Tier2(3, false, vroute.Tier2OutboundsSmall)), vroute.PacketOpts{Compact: true}, false, false, false)
+		rule += ", under all 60 variants; all programs of exactly 2 rules (realisation per rule, 5 outbounds, full packet product); all programs of exactly 3 rules over 3 outbounds {g1, must_g2, must_rules} with the realisation chosen per program (compact packet product; UDP only where the program mentions l4proto)"
 	}
 	rule += fmt.Sprintf(". variants (%d) = LPM ring state {first load, after one load of the same program, after as many loads (one 1-set configuration, then the same program repeatedly, each through the real reserveLpmRingSlots) as make this load's allocation end at or wrap past slot 1023} x ids(g1,g2) in %v x marks {as written; rules 0xffffffff + fallback 1; rules 1 + fallback 0xffffffff; rule j in {0,1,0xffffffff}[j%%3] + fallback 0x80000000}. (a) runs the complete product; in (b),(c) program i of a space runs under variant SplitMix64(space,i) mod %d (a fixed assignment, identical in every run; per-variant program counts are in programs_per_variant)", nVariants, idTables, nVariants)
 	rule += ". packets: vroute.PacketsFor = per program the full product of the boundary values of its own constants (prefix first/last/first-1/last+1 in 128-bit space, both families, IPv4 also as IPv4-mapped Go addresses in (a),(b) and tier-2 1-rule; port range ends and +-1 plus destination port 53; no/matching/sub-/glued/upper-case+trailing-dot/foreign domain; no/listed(16 bytes)/+-1 byte/foreign pname; zero/listed/listed^1/foreign MAC; dscp listed +-1), every packet as TCP and as UDP, in LAN flavour (is_wan=0, no process name: the packets without pname) and WAN flavour (is_wan=1, process name as in the packet incl. unknown, MAC as in the packet incl. zero). A case = (program, variant, packet, flavour) = one real route() call compared with ControlPlane.Route and with the vroute reference; distinct by construction (programs de-duplicated by text+ring+ids where mark rewriting can make two base programs coincide); distinct_nontrivial = cases whose decision is taken by a rule or passes a holding must_rules"
